@@ -10,11 +10,16 @@ CLAIM = {
              "ScalarMappable definitely passes ax or cax, for every grid / relative-position valuation; (R3) the x / y / error / colour names reach the matching slot of plot / errorbar / scatter / hist / pcolormesh and the heat-map array is transposed to (y, x) "
              "by dimension name on every path; (R4) each series is masked by exactly isfinite(x) & isfinite(y) applied to all its components, exactly one series is yielded per z value on every path through the generator's loop body (no skip, no repeat), and in each draw loop the label iterator advances once and one artist is created per series on "
              "every path; (R5) grid panels: rows outer / columns inner consistently in the data split, GridSpec[i, j] and titles; (R6) no store, augmented assignment or in-place method on a value that may alias the caller's dataset; (R7) line colours are "
-             "cmap(norm(v)) with v and the norm's limits from the same quantity and absent limits are tested with `is None`, and the numeric / non-numeric test on z values holds for numpy scalars. In R4: the per-series arrays are aligned with xr.broadcast before flattening; the histogram loop advances its label iterator and yields once per series on every path."),
+             "cmap(norm(v)) with v and the norm's limits from the same quantity and absent limits are tested with `is None`, and the numeric / non-numeric test on z values holds for numpy scalars. In R4: the per-series arrays are aligned with xr.broadcast before flattening; the histogram loop advances its label iterator and yields once per series on every path. "
+             "In R5 also: each cell of the split is selected by its own coordinates, the grid iterates ds[row].values / ds[col].values themselves (a re-ordered iterable is reported), and on a window of 1..3 x 1..3 grids every column / row has a panel that carries its title. "
+             "(R8) colour limits: zmin from zlims[0] / the data minimum, zmax from zlims[1] / the maximum; the numeric test looks at an element every non-empty series list has; non-numeric z values are spread over [0, 1], one value per series. "
+             "(R9) prepare_z_vals: the multi-variable flag is on exactly on the paths where the series are variable names. (R10) the selection along z is made only where the path's own tests say z is a coordinate value; line colours from a variable are collected "
+             "once per series in line mode, per-point colours in scatter mode, iff c is given (truth table over path conditions, through sibling helper closures). (R11) heat-map cell edges: on a uniform mesh a + h*i with h of either sign the n + 1 edges are "
+             "a - h/2 + h*i (abstract evaluation over arithmetic sequences; a necessary condition only -- non-uniform meshes are not decided). (B6) builtin calls are given plausible argument kinds."),
     "note": "Trusted base: the matplotlib slot table (plot(x, y), errorbar(x, y, yerr=, xerr=), scatter(x, y), hist(x), pcolormesh(X, Y, C[y, x]), Figure.colorbar(mappable, ax=|cax=)); view / fresh-array producer tables in xyzsa/props/plots.py.",
-    "technique": "static analysis: reference resolution against installed packages (closed-world attribute check), definite-key dataflow, role-provenance rules at draw sinks, CFG lock-step path rules, alias/taint no-mutation rule",
+    "technique": "static analysis: reference resolution against installed packages (closed-world attribute check), definite-key dataflow, role-provenance rules at draw sinks, CFG lock-step path rules, alias/taint no-mutation rule, path-condition truth tables, reaching definitions, abstract evaluation of the edge arithmetic over arithmetic sequences",
 }
-EXPLANATION = "B4/B5 link rules over the plotting modules; definite keys of the colorbar options per valuation; provenance of draw-call arguments; mask / lock-step / panel rules; view-taint no-mutation rule; colour provenance."
+EXPLANATION = "B4/B5/B6 link rules over the plotting modules; definite keys of the colorbar options per valuation; provenance of draw-call arguments; mask / lock-step / panel rules; view-taint no-mutation rule; colour provenance and limits; multi-variable flag by reaching definitions; path-condition truth tables of the series generators; uniform-mesh abstract evaluation of the heat-map edges."
 ASSUMPTIONS = ["matplotlib draws what it is given", "boolean-mask indexing, .flatten(), arithmetic produce fresh arrays; .values / basic indexing may be views"]
 NOT_DECIDED = ["(L/V) the drawn artists equal the data (matplotlib on runtime arrays); legend / colour-bar rendering; log axes; jitter"]
 
